@@ -329,3 +329,7 @@ mod tests {
         thread::sleep(Duration::from_millis(1500));
     }
 }
+
+#[cfg(kani)]
+#[path = "/verif/harness/may/timeout_list.rs"]
+mod verif_kani;
